@@ -10,7 +10,7 @@ if not os.path.exists(H + "/build.ninja"):
         "-DCMAKE_CXX_COMPILER=clang++-14", "-DCMAKE_BUILD_TYPE=Release",
         "-Dpika_DIR=" + B + "/pika-sim/lib/cmake/pika",
         "-Dfmt_DIR=/usr/lib/x86_64-linux-gnu/cmake/fmt",
-        "-DCMAKE_CXX_FLAGS=" + SIM + " -DPIKA_VERIF_SIM -Wno-unused-command-line-argument -O2",
+        "-DCMAKE_CXX_FLAGS=" + SIM + " -DPIKA_VERIF_SIM -Wno-unused-command-line-argument -O2 -g",
         "-DCMAKE_CXX_FLAGS_RELEASE=-O2",
         "-DCMAKE_EXE_LINKER_FLAGS=-fno-sanitize=thread -Wl,--no-as-needed -L" + B + " -lpikasim -Wl,-rpath," + B])
     if r != 0:
